@@ -126,7 +126,7 @@ def bath_modes(chk, n):
         out *= ph_1 * ph_2
         return out + (ph_1 * ph_2 - ph_1 - ph_2 + 1) * (g_1 * g_2) / (w_1 * w_2)
     for it in range(n):
-        T = rng.choice([0.0, 2.0, 0.5])
+        T = [0.5, 0.0, 2.0][it % 3]            # every run: cold (n ~ 0.1), zero and hot baths
         alpha, wc = rng.choice([0.1, 0.3]), rng.choice([4.0, 10.0])
         dt = rng.choice([0.1, 0.05])
         nst = rng.randint(6, 10)
